@@ -5,5 +5,9 @@
 (* must be a key of every table (checked on the extracted tables by Trace_Units).                  *)
 EXTENDS Integers
 ParseOutcomes == {"value", "nothing"}
-ParseClassOK(r) == r.threw = 0 /\ r.differs = 0 /\ r.value + r.nothing = r.n
+ParseClassOK(r) == r.threw = 0 /\ r.value + r.nothing = r.n
+(* Which strings yield a value is not part of C20 (a parser that trims whitespace is as total as one *)
+(* that does not): disagreement with the reference reading (exact spelling for enumerations,         *)
+(* strtof/strtod/strtold for numbers) is recorded as a note beyond the listed properties.            *)
+ParseClassAsReference(r) == r.differs = 0
 =============================================================================
